@@ -264,6 +264,11 @@ def hash_field_cases():
         # 64 chars, more than 64 bytes
         out += [H1[:63] + c, c + H1[:63]]
     out += ["é" * 32, "€" * 21 + "0", "😀" * 16]
+    # 64 bytes with a sign, radix prefix or separator where a lenient integer parser would swallow it
+    for i in (0, 1, 2, 30, 62, 63):
+        for bad in ("+", "-", "_", " ", "x"):
+            out.append(H1[:i] + bad + H1[i + 1:])
+    out += ["+f" * 32, "0x" + H1[2:], "+" + H1[1:], H1[:62] + "+f"]
     return out
 
 
@@ -302,6 +307,12 @@ def line_cases(seed):
               "BLAKE3 (x) = " + H2, "a  b) = c  d"):
         add("separators plain", H1 + "  " + p)
         add("separators tag", "BLAKE3 (" + p + ") = " + H1)
+    # 4b. paths that are not in a normal form: the parsed path is the text of the line, byte for byte
+    for p in ("dir//file", "dir/./file", "link/", "//net/share", "./a", "a/.", "a/../b", "a//", "/", "//", "a/b/", ".", "..",
+              "a\\n//b"):
+        add("non-normal path plain", H1 + "  " + p)
+        add("non-normal path tag", "BLAKE3 (" + p + ") = " + H1)
+    add("non-normal path esc", "\\" + H1 + "  a\\n//b")
     # 5. escapes
     for f in ("a\\\\b", "a\\nb", "a\\rb", "\\\\", "\\n", "\\r", "a\\", "\\", "a\\tb", "a\\0b", "a\\ b", "a\\Nb", "a\\" + "é",
               "\\\\\\", "\\\\\\\\", "\\\\n", "\\n\\r\\\\", "plain", "é\\n€", "a\\\\", "a\\\\\\nb", "\\x41"):
